@@ -45,7 +45,7 @@ PROP = {
                     "fails for that reason"],
 }
 CLAIM = {
-  "text": "Coq theorems over the server, client and slot models, for EVERY well-formed request frame (any function code, any content), EVERY valid operation with EVERY valid reply (normal or exception; MBAP also behind or inside frames that are skipped), EVERY byte offset inside the frame and EVERY stream end (peer stalls until the deadline, closes, resets): the server session on the cut request is exactly [closed] - no handler call, no response (a strict prefix of a well-formed frame never starts with a well-formed frame); on the complete request followed by the stream end it is exactly the events of processing the request once (for a dispatchable request: one call, one response attempt) and then the close; the client call on the cut reply returns an error of the stated class (timeout for a stall, i/o error or short frame for close/reset) and never a success; on any handle state, Close; Open yields a fresh transport (transaction id restarts, nothing buffered) whose next call on a valid reply succeeds and transmits exactly the specified request, and between Close and Open every call fails without writing; in every reachable state of the C09 transition system a session that ends (disconnect, protocol error, idle expiry) is removed and closed, the server stays started and the slot serves a later connection. The same cut theorems are proved for EVERY delivery of the stream - any chunking, the end of the stream reported by the Read that hands out the last bytes (io.Reader allows n > 0 together with the error; crypto/tls does it) or by a later Read: io.ReadFull over such a connection equals a full read on the concatenation, so where the end is reported cannot be observed (Properties/C13b.v). The cut exchange may be ANY exchange of its connection (Properties/C13c.v, Model/CutSession.v): for EVERY list of valid exchanges completed before on the connection (the state carried is the transaction counter), every cut offset of the next reply and every stream end, the cut call is an error, the listener at the client's address has received - over ALL connections - one connection with exactly one request frame per call, consecutive transaction ids, the cut call's request once, and after Close; Open a second connection with exactly the next request, which completes; the cut call fails with exactly one frame transmitted in any state of an open handle and (MBAP) after any history of calls, peer bytes and outcomes that left only whole skippable frames unread. The models are compared with the real server path and the real client at every cut offset on every run, and with a real server / real client over loopback TCP with closing, resetting and stalling peers, the client also with the cut on the 1st, 2nd, 3rd, ... exchange of a connection against a listener that accepts and serves further connections (cutkth).",
+  "text": "Coq theorems over the server, client and slot models, for EVERY well-formed request frame (any function code, any content), EVERY valid operation with EVERY valid reply (normal or exception; MBAP also behind or inside frames that are skipped), EVERY byte offset inside the frame and EVERY stream end (peer stalls until the deadline, closes, resets): the server session on the cut request is exactly [closed] - no handler call, no response (a strict prefix of a well-formed frame never starts with a well-formed frame); on the complete request followed by the stream end it is exactly the events of processing the request once (for a dispatchable request: one call, one response attempt) and then the close; the client call on the cut reply returns an error of the stated class (timeout for a stall, i/o error or short frame for close/reset) and never a success; on any handle state, Close; Open yields a fresh transport (transaction id restarts, nothing buffered) whose next call on a valid reply succeeds and transmits exactly the specified request, and between Close and Open every call fails without writing; in every reachable state of the C09 transition system a session that ends (disconnect, protocol error, idle expiry) is removed and closed, the server stays started and the slot serves a later connection. The same cut theorems are proved for EVERY delivery of the stream - any chunking, the end of the stream reported by the Read that hands out the last bytes (io.Reader allows n > 0 together with the error; crypto/tls does it) or by a later Read: io.ReadFull over such a connection equals a full read on the concatenation, so where the end is reported cannot be observed (Properties/C13b.v). The cut exchange may be ANY exchange of its connection (Properties/C13c.v, Model/CutSession.v): for EVERY list of valid exchanges completed before on the connection (the state carried is the transaction counter), every cut offset of the next reply and every stream end, the cut call is an error, the listener at the client's address has received - over ALL connections - one connection with exactly one request frame per call, consecutive transaction ids, the cut call's request once, and after Close; Open a second connection with exactly the next request, which completes; the cut call fails with exactly one frame transmitted in any state of an open handle and (MBAP) after any history of calls, peer bytes and outcomes that left only whole skippable frames unread. The models are compared with the real server path and the real client at every cut offset on every run, and with a real server / real client over loopback TCP with closing, resetting and stalling peers, the client also with the cut on the 1st, 2nd, 3rd, ... exchange of a connection against a listener that accepts and serves further connections (cutkth). At source level (Properties/C03t.v, C05t.v): a read error ends the translated server loop without a handler call; the translated tcp transport returns an error, never a frame, on every cut stream.",
   "note": "partial: kernel TCP behaviour (FIN/RST delivery, data discarded by a reset), goroutine scheduling, the wall-clock idle timeout and the dial in Open are runtime facts exercised by the loopback scenario, not modelled (the model's stream end is untimed: bytes used up = deadline error / EOF / reset). RTU server side does not exist in the library (ReadRequest unimplemented); the server theorems are about the MBAP transport. Response write failures after the peer left are tolerated by the code (logged) and appear in the model as the attempted response event. Trusted: kernel, extraction, harness, scripted connection, VerifServeConn / VerifNewClientOnConn / VerifServerSnapshot hooks.",
-  "technique": "Coq proof (short-read characterisation of both frame readers on strict prefixes, induction over skipped frames with fuel bound, reuse of C02/C03/C09 theorems) + differential correspondence at every cut offset (scripted connections and real loopback sockets)",
+  "technique": "Coq proof over Go source functions translated on every run (GoLite deep embedding; sockets, clock, handler as external functions over an abstract world) + Coq proof (short-read characterisation of both frame readers on strict prefixes, induction over skipped frames with fuel bound, reuse of C02/C03/C09 theorems) + differential correspondence at every cut offset (scripted connections and real loopback sockets)",
 }
